@@ -868,6 +868,33 @@ func runC09(c *gen.Ctx) error {
 		c.Do("json", c09JSONIn{Hdrs: hdrs, Caps: caps, Ending: gen.Pick(r, c09Endings), Cut: cut, Count: len(hdrs) + 1})
 	}
 	{
+		// the JSON variant with messages whose text crosses 4 KiB, 8 KiB, 64 KiB (buffer sizes of
+		// writers and of the tokenizer), between two small messages, written by the real encoder and
+		// read back by the real decoder
+		var big []int
+		for l := 4060; l <= 4100; l++ {
+			big = append(big, l)
+		}
+		for l := 8150; l <= 8200; l += 2 {
+			big = append(big, l)
+		}
+		for l := 65490; l <= 65540; l += 5 {
+			big = append(big, l)
+		}
+		if c.Thorough() {
+			for l := 1<<20 - 40; l <= 1<<20+8; l += 6 {
+				big = append(big, l)
+			}
+		}
+		for _, l := range big {
+			hdrs := [][]string{{"a", "b"}, {"big", c09Word(r, l)}, {"z"}}
+			probe := c09JSON(c09JSONIn{Hdrs: hdrs, Caps: []int{}, Ending: "eof", Cut: -1, Count: 0})
+			kind := gen.Pick(r, []int{1, 3, 4})
+			e.Count("json-big")
+			c.Do("json", c09JSONIn{Hdrs: hdrs, Caps: c09Caps(r, probe.Len, probe.TextEnds, kind), Ending: gen.Pick(r, []string{"eof", "eofWithData"}), Cut: -1, Count: 4})
+		}
+	}
+	{
 		// one stream: every cut offset, and every two-part split of the whole
 		hdrs := [][]string{{"ab", "c}"}, {}, {"x\"y", "", "z"}}
 		probe := c09JSON(c09JSONIn{Hdrs: hdrs, Caps: []int{}, Ending: "eof", Cut: -1, Count: 0})
